@@ -4,7 +4,7 @@
    A case is (method, entries of the arguments, entries of the result,
    "a warning was issued"), all observed on the classes of /repo.
      accepts = the definition generated from desper/math.py (Math/MathGen.v),
-               read over Q, computes exactly the observed result;
+               read over Q (Math/QInst.v), computes exactly the observed result;
      holds_b = the observed result is what the textbook says (Math/Spec.v
                read over Q).
    The theorems (Props/C18.v) are about the same generated definitions and
@@ -13,25 +13,27 @@ From Coq Require Import ZArith QArith List String Bool.
 From Desper Require Import Math.Sig Math.Spec Math.QInst Math.MathGen.
 Import ListNotations.
 
-(* n/d as the harness writes it *)
-Definition q (n : Z) (d : positive) : Q := Qmake n d.
+(* n/d as the harness writes it: a number, an angle token, an angle in degrees *)
+Definition q (n : Z) (d : positive) : qa := Num (Qmake n d).
+Definition ang (n : Z) (d : positive) : qa := Ang (Qmake n d).
+Definition deg (n : Z) (d : positive) : qa := Deg (Qmake n d).
 
 Record C18_case := {
   c_meth : string;
-  c_in   : list Q;
-  c_out  : list Q;
+  c_in   : list qa;
+  c_out  : list qa;
   c_warn : bool
 }.
 
-Fixpoint eql (a b : list Q) : bool :=
+Fixpoint eql (a b : list qa) : bool :=
   match a, b with
   | [], [] => true
-  | x :: a', y :: b' => Qeq_bool x y && eql a' b'
+  | x :: a', y :: b' => geqb x y && eql a' b'
   | _, _ => false
   end.
 
-Definition gen_run (c : C18_case) : option (list Q * bool) :=
-  match lookup (c_meth c) (@gen_table Q Qops) with
+Definition gen_run (c : C18_case) : option (list qa * bool) :=
+  match lookup (c_meth c) (@gen_table qa QAops) with
   | Some f => f (c_in c)
   | None => None
   end.
@@ -40,9 +42,9 @@ Definition gen_run (c : C18_case) : option (list Q * bool) :=
    number of entries, and the side conditions of Spec.wf_table (non-zero
    divisors, non-degenerate box, limit >= 0) *)
 Definition wf_b (c : C18_case) : bool :=
-  match gen_run c, lookup (c_meth c) (@spec_table Q Qops) with
+  match gen_run c, lookup (c_meth c) (@spec_table qa QAops) with
   | Some _, Some _ =>
-      match lookup (c_meth c) (@wf_table Q Qops) with
+      match lookup (c_meth c) (@wf_table qa QAops) with
       | Some f => f (c_in c)
       | None => true
       end
@@ -58,7 +60,7 @@ Definition accepts (c : C18_case) : bool :=
   end.
 
 Definition holds_b (c : C18_case) : bool :=
-  match lookup (c_meth c) (@spec_table Q Qops) with
+  match lookup (c_meth c) (@spec_table qa QAops) with
   | Some s => s (c_in c) (c_out c) (c_warn c)
   | None => false
   end.
